@@ -19,16 +19,27 @@ def nontrivial(evs):
 
 RULE = ("behaviours = one per transition of the environment state graph of Gen_CalcEnv (2 abstract keys quick / 3 thorough, "
         "Write/Deliver/DeliverStale/DeliverDup/SpuriousDelete/InSync/Flush, thinned by seed) bound by seed to catalogue keys of "
-        "all five universes, completed by catch-up + in-sync + flush, plus seeded random histories over whole universes with "
-        "flush after every update / in batches / only at the end; every emitted message is judged (delta and removal soundness, "
+        "all five universes, completed by catch-up + in-sync + flush; seeded random histories over whole universes with flush "
+        "after every update / in batches / only at the end; window-mode histories (a group of related keys - object, key deciding "
+        "its activity - toggled in rounds: create+activate, flush, then one multi-update window: edit-then-deactivate, "
+        "remove/flush/activate-and-deactivate, deactivate-and-reactivate, delete-and-recreate); TLC -simulate walks with 2-4 "
+        "deliveries per flush window (Gen_win.cfg) bound to such groups; every emitted message is judged (delta and removal soundness, "
         "referential integrity of the folded dataplane state after every message, VTEP/route order inside a flush); a trace is "
         "non-trivial if it contains a removal, an IP-set delta, or an endpoint that references a policy/profile; "
         "plus an AsyncCalcGraph leg for the in-sync clause")
 
 
 def run(ctx):
-    P = cc.make_P(ctx, CFG, cc.ALL_UNIVERSES, nontrivial, RULE, env={"VERIF_FRESH": "none"})
+    # random leg: three of four histories are window-mode (few related keys toggled back and forth, a flush only every
+    # 1-4 deliveries, rounds of "create+activate, flush" followed by "edit then deactivate" / "remove, flush, activate and
+    # deactivate" / "deactivate and re-activate" / "delete and re-create" windows)
+    P = cc.make_P(ctx, CFG, cc.ALL_UNIVERSES, nontrivial, RULE, n_random=(240, 3000), env={"VERIF_FRESH": "none", "VERIF_WINDOWS": "most"})
     pipeline.standard_check(ctx, P)
+    if not ctx.replay and not ctx.violations:
+        # TLC walks whose flush windows hold 2-4 deliveries (Gen_win.cfg), bound to groups of related catalogue keys
+        P3 = cc.make_P(ctx, CFG, cc.ALL_UNIVERSES, nontrivial, RULE, design=False, gen="win", quick_beh=60, thorough_beh=1500,
+                       n_random=(0, 0), env={"VERIF_FRESH": "none"})
+        pipeline.standard_check(ctx, P3)
     if not ctx.replay and not ctx.violations:
         # in-sync clause: the real AsyncCalcGraph (the only emitter of proto.InSync), timer-driven flushes
         P2 = cc.make_P(ctx, CFG, cc.ALL_UNIVERSES, None, RULE, design=False, gen=None, n_random=(12, 150),
